@@ -4,6 +4,8 @@ CHECKS = {
     "C02": {"kind": "explore", "scenarios": ["conc"],
             "assumptions": ["gorilla/websocket, net/http, encoding/json run natively between library gates and are treated as atomic",
                             "go1.26.8 testing/synctest bubble semantics; in-memory network vnet instead of TCP"]},
+    "C19": {"kind": "seqx", "pkg": "c19", "test": "TestC19",
+            "assumptions": ["the checks compare permissions only for equality, so the 3-permission universe is representative"]},
 }
 
 # Properties not (yet) claimed, with the reason shown in MANIFEST.not_applicable.
@@ -11,6 +13,8 @@ NOT_APPLICABLE = {}
 
 # Per-property wording for MANIFEST.level_claimed / level_note.
 TEXT = {
+    "C19": {"level": "The whole finite configuration space (default set x caller set x attachment mode x required permission x method shape, plus header form x query form x verifier outcome for the HTTP handler) is enumerated completely against a set-membership reference model, with the implementation's own invocation counter as the observable.",
+            "note": "3-permission universe; real auth package, httptest recorder; no scheduling dimension."},
     "C02": {"level": "Every schedule of n concurrent callers on one client (WS n=2..3, HTTP n=3..4) that deviates from the default schedule at up to the stated bound of decision points is executed on the real client, server, gorilla/websocket and net/http over an in-memory network, and each execution is checked for per-call token match, single return, exactly one handler run and one request/response frame per id on the wire. This is the level at which lost/duplicated/cross-delivered responses manifest (they need specific interleavings of registration, write, read and delivery).",
             "note": "Bounded: n<=3 (WS)/4 (HTTP) callers, deviation bound 2 (quick) / 3 (thorough); code between two gates (incl. gorilla/websocket, net/http, encoding/json) is atomic; memory-model races are out of scope of the scheduler."},
 }
